@@ -26,6 +26,8 @@ let fmt_obs (addr_name : int -> string) (user_name : int -> string) (p : nat) (o
     let i = int_of_z o.o_idx in
     if i >= 0 then Printf.sprintf "%s[%d]" nm i else nm in
   let pp = string_of_int (int_of_nat p) in
+  let done_mark = if int_of_z o.o_kind <> 3 && int_of_z o.o_v4 = 1 then "!" else "" in
+  (fun s -> s ^ done_mark) @@
   match int_of_z o.o_kind with
   | 0 -> Printf.sprintf "%s.ld.%s.%s" pp (a ()) (z o.o_v1)
   | 1 -> Printf.sprintf "%s.st.%s.%s" pp (a ()) (z o.o_v1)
@@ -47,7 +49,7 @@ let addr_name = function
   | 0 -> "head" | 1 -> "tail" | 2 -> "mark" | 3 -> "whead" | 4 -> "rtail"
   | 5 -> "idler" | 6 -> "pending" | 7 -> "swait" | 8 -> "spend" | _ -> "?"
 let user_name = function
-  | 0 -> "semwait" | 1 -> "semsig" | 2 -> "yield" | 3 -> "ssemwait" | 4 -> "ssemsig" | _ -> "?"
+  | 0 -> "semwait" | 1 -> "semsig" | 2 -> "yield" | 3 -> "ssemwait" | 4 -> "ssemsig" | 5 -> "qpush" | 6 -> "qpop" | _ -> "?"
 
 let parse_op (tok : string) : op =
   let arg () = String.sub tok 1 (String.length tok - 1) in
@@ -113,6 +115,14 @@ let () =
             let res = String.concat "|" (List.map (fun p -> let th = st.b_thr (nat_of_int p) in show_thr (th.t_pc = None) th.t_res) (range 0 n)) in
             out cap (fmt log) ll res
               (Printf.sprintf "h=%s,t=%s,wh=%s,rt=%s,d=%s" (string_of_z st.b_head) (string_of_z st.b_tail) (string_of_z st.b_whead) (string_of_z st.b_rtail) (zl st.b_slot cap)) full
+          | "chan" ->
+            (* capreq = capacity request, "start" field = yield_turn *)
+            let ((st, log), ll) = chan_run c.c_cap start bound sched scripts in
+            let res = String.concat "|" (List.map (fun p -> let th = st.c_thr (nat_of_int p) in show_thr (th.t_pc = None) th.t_res) (range 0 n)) in
+            out cap (fmt log) ll res
+              (Printf.sprintf "q=%s,idler=%s,pend=%s,sw=%s,sp=%s,qsem=%s,ssem=%s" (String.concat ":" (List.map string_of_z st.c_q))
+                 (string_of_z st.c_idler) (string_of_z st.c_pending) (string_of_z st.c_swait) (string_of_z st.c_spend)
+                 (string_of_z st.c_qsem) (string_of_z st.c_ssem)) full
           | _ -> print_endline "BADKIND")
        | _ -> print_endline "BADCASE")
     with e -> print_endline ("BADCASE " ^ Printexc.to_string e))
